@@ -700,6 +700,40 @@ class Context:
             y = to_number(args[1]) if len(args) > 1 else float("nan")
             return js_pow(x, y)
 
+        def hyperbolic(fn, overflow, odd=True):
+            """A hyperbolic function: NaN passes through, an odd function keeps the
+            sign of zero, overflow is an infinity."""
+
+            def wrapped(*args):
+                x = to_number(args[0]) if args else float("nan")
+                if math.isnan(x) or (odd and x == 0):
+                    return float(x)  # NaN, +0, -0
+                try:
+                    return fn(float(x))
+                except OverflowError:
+                    return overflow(x)
+                except ValueError:
+                    return float("nan")  # outside the domain
+
+            return wrapped
+
+        def acosh_domain(x):
+            return math.acosh(x)
+
+        def atanh_edges(x):
+            if x == 1:
+                return float("inf")
+            if x == -1:
+                return float("-inf")
+            return math.atanh(x)
+
+        sinh_fn = hyperbolic(math.sinh, lambda x: math.copysign(float("inf"), x))
+        cosh_fn = hyperbolic(math.cosh, lambda x: float("inf"), odd=False)
+        tanh_fn = hyperbolic(math.tanh, lambda x: math.copysign(1.0, x))
+        asinh_fn = hyperbolic(math.asinh, lambda x: math.copysign(float("inf"), x))
+        acosh_fn = hyperbolic(acosh_domain, lambda x: float("inf"), odd=False)
+        atanh_fn = hyperbolic(atanh_edges, lambda x: float("nan"))
+
         def sqrt_fn(*args):
             x = to_number(args[0]) if args else float("nan")
             if x < 0:
@@ -860,6 +894,12 @@ class Context:
         math_obj.set("max", max_fn)
         math_obj.set("pow", pow_fn)
         math_obj.set("sqrt", sqrt_fn)
+        math_obj.set("sinh", sinh_fn)
+        math_obj.set("cosh", cosh_fn)
+        math_obj.set("tanh", tanh_fn)
+        math_obj.set("asinh", asinh_fn)
+        math_obj.set("acosh", acosh_fn)
+        math_obj.set("atanh", atanh_fn)
         math_obj.set("sin", sin_fn)
         math_obj.set("cos", cos_fn)
         math_obj.set("tan", tan_fn)
